@@ -504,6 +504,12 @@ func Generate(seed uint64, opt GenOptions) *Scenario {
 				op.TZ = g.chance(tzShare)
 				op.Zone = genZones[g.r.IntN(len(genZones))]
 				op.TZOuter = g.chance(0.3)
+				switch n := g.r.IntN(10); {
+				case n < 2:
+					op.Via = "new"
+				case n < 4:
+					op.Via = "exec"
+				}
 				if !op.TZOuter && op.Zone != "" && g.chance(0.2) {
 					op.TZDerive = genZones[2+g.r.IntN(len(genZones)-2)]
 				}
@@ -661,6 +667,7 @@ func TwinScenario(idx int, mode string) *Scenario {
 			o.TZ = true
 			o.Zone = zone
 			o.TZOuter = variant%4 == 1
+			o.Via = []string{"", "new", "exec"}[(idx+len(kind))%3]
 			if variant%4 == 3 && zone != "" && kind != "query" {
 				o.TZDerive = "Europe/London"
 			}
